@@ -1,7 +1,8 @@
 ----------------------------- MODULE TzMapTrace -----------------------------
 (* Direction B for the zone map part of C19: Reset(keys, zones) installs the map source (sorted keys, zone index per
    key, 0-based zone names are compared as strings); Find(key, r) is one tzm_find on the compiled map: r must be the
-   zone of key, or "" (NULL) when the key is not in the source. *)
+   zone of key, or "" (NULL) when the key is not in the source; Tool(key, r, rows) is one MAP:KEY specification among
+   several given to one dzone process: its row must be the row of the mapped zone. *)
 EXTENDS Integers, Sequences, Json, IOUtils, TLCExt, TLC
 VARIABLES l, keys, zones
 Tr == ndJsonDeserialize(IOEnv.TRACE)
@@ -11,7 +12,9 @@ TReset == /\ l <= Len(Tr) /\ Ev.e = "Reset" /\ keys' = Ev.keys /\ zones' = Ev.zo
 Lookup(k) == IF \E i \in 1..Len(keys) : keys[i] = k
              THEN zones[CHOOSE i \in 1..Len(keys) : keys[i] = k] ELSE ""
 TFind == /\ l <= Len(Tr) /\ Ev.e = "Find" /\ Ev.r = Lookup(Ev.key) /\ l' = l + 1 /\ UNCHANGED <<keys, zones>>
-TNext == TReset \/ TFind
+\* the same lookup through a tool: the row printed for MAP:KEY is the row the tool prints for the mapped zone itself (rows: zone -> row)
+TTool == /\ l <= Len(Tr) /\ Ev.e = "Tool" /\ Lookup(Ev.key) # "" /\ Ev.r = Ev.rows[Lookup(Ev.key)] /\ l' = l + 1 /\ UNCHANGED <<keys, zones>>
+TNext == TReset \/ TFind \/ TTool
 TSpec == TInit /\ [][TNext]_<<l, keys, zones>>
 Accepted == TLCGet("stats").diameter - 1 = Len(Tr)
 =============================================================================
